@@ -915,8 +915,82 @@ Proof.
     unfold Fq in H at 1. rewrite EF in H. destruct H as [<-|H]; [right; eauto|left; exact H].
   - (* PN8 *)
     left. destruct (Z.eqb (fstt s x) 5); [exact H|].
-    unfold next_ret. destruct k; try (exfalso; tauto); destruct x; exact H.
+    unfold next_ret. destruct k; try (exfalso; tauto); destruct x;
+      try match goal with |- context [finish ?a ?b ?c ?d] => destruct (finish a b c d) end; exact H.
   - (* PL1 *)
     left. unfold lb_continue. rewrite Hn, lb_scan_1thread. unfold lb_ret.
     destruct k; try match goal with |- context [finish ?a ?b ?c ?d] => destruct (finish a b c d) end; exact H.
+Qed.
+
+(* one step of the instrumented machine, seen from a pending READY fiber g *)
+Lemma pending_step N x g : GInv N x -> pendingR x g ->
+  let x' := lstep x 0 in
+  (hand x' = hand x /\ byp x' g = byp x g /\ pendingR x' g) \/
+  (exists y, y <> g /\ hand x' = hand x ++ [y] /\ byp x' g = S (byp x g) /\ pendingR x' g) \/
+  hand x' = hand x ++ [g].
+Proof.
+  intros GI0 P. pose proof (g_inv N x GI0) as I0.
+  pose proof (pending_ready N _ g I0 P) as H2.
+  pose proof (i_loc N _ I0) as Hloc. unfold lok, T0 in Hloc.
+  destruct P as [Hq|[k Hk]].
+  - assert (P' : pendingR (lstep x 0) g).
+    { unfold pendingR. rewrite lstep_erase. apply (queue_mono N _ g I0 Hq). }
+    revert P'. unfold lstep. cbv zeta.
+    destruct (pc (thr (base x) 0)) eqn:Hpc; intros P'; try (left; cbn [hand byp]; auto; fail).
+    destruct Hloc as [_ Hx]. rewrite Hx in *. change (2 =? 5)%Z with false in *. cbv iota in *.
+    cbn [hand byp]. destruct (Nat.eqb_spec g x0) as [E|E].
+    + right; right. subst; reflexivity.
+    + right; left. exists x0. rewrite H2. cbn [Z.eqb Pos.eqb]. repeat split; auto.
+  - right; right. unfold lstep. unfold T0 in Hk. rewrite Hk. rewrite H2.
+    change (2 =? 5)%Z with false. cbv iota. reflexivity.
+Qed.
+
+Lemma hand_prefix sch : forall x, exists l, hand (irun x sch) = hand x ++ l.
+Proof.
+  induction sch as [|t r IH]; intros x; cbn [irun fold_left].
+  - exists []. rewrite app_nil_r. reflexivity.
+  - fold (irun (igrant x t) r). destruct (IH (igrant x t)) as [l Hl]. rewrite Hl.
+    assert (exists l0, hand (igrant x t) = hand x ++ l0) as [l0 H0].
+    { unfold igrant. destruct (mstatus M (base x) t); try (exists []; rewrite app_nil_r; reflexivity).
+      unfold lstep. destruct (pc (thr (base x) t)); try (exists []; rewrite app_nil_r; reflexivity).
+      destruct (Z.eqb (fstt (base x) x0) 5); [exists []; rewrite app_nil_r; reflexivity|].
+      eexists; reflexivity. }
+    rewrite H0. exists (l0 ++ l). rewrite app_assoc. reflexivity.
+Qed.
+
+Lemma GInv_igrant N x t : GInv N x -> GInv N (igrant x t).
+Proof.
+  intros G. unfold igrant. destruct (mstatus M (base x) t) eqn:E; auto.
+  rewrite (ready_thread0 N (base x) t (g_inv N x G) E). apply gstep; exact G.
+Qed.
+
+Lemma pending_run N g sch : forall x, GInv N x -> pendingR x g ->
+  exists l, hand (irun x sch) = hand x ++ l /\
+            (In g l \/ (byp (irun x sch) g = byp x g + length l /\ pendingR (irun x sch) g)).
+Proof.
+  induction sch as [|t r IH]; intros x G P; cbn [irun fold_left].
+  - exists []. rewrite app_nil_r. split; [reflexivity|]. right. cbn. split; [lia|exact P].
+  - fold (irun (igrant x t) r).
+    pose proof (GInv_igrant N x t G) as G1.
+    unfold igrant in *. destruct (mstatus M (base x) t) eqn:E; try (apply IH; assumption).
+    rewrite (ready_thread0 N (base x) t (g_inv N x G) E) in *.
+    destruct (pending_step N x g G P) as [(Hh & Hb & P1)|[(y & Hy & Hh & Hb & P1)|Hh]].
+    + destruct (IH _ G1 P1) as (l & Hl & Hc). exists l. rewrite Hl, Hh. split; auto.
+      destruct Hc as [Hc|[Hc1 Hc2]]; auto. right. split; [lia|auto].
+    + destruct (IH _ G1 P1) as (l & Hl & Hc). exists (y :: l). rewrite Hl, Hh, <- app_assoc. split; auto.
+      destruct Hc as [Hc|[Hc1 Hc2]]; [left; right; auto|]. right. cbn [length]. split; [lia|auto].
+    + destruct (hand_prefix r (lstep x 0)) as [l Hl]. exists (g :: l). rewrite Hl, Hh, <- app_assoc.
+      split; auto. left; left; reflexivity.
+Qed.
+
+(* C10 corollary: after g is READY and queued, at most 2(N-1) - byp g further
+   hand-outs can take place without g being handed out *)
+Lemma poll_progress N prog x g sch :
+  prog_ok N prog -> ireach true prog x -> queued (base x) g ->
+  exists l, hand (irun x sch) = hand x ++ l /\ (In g l \/ byp x g + length l <= 2 * (N - 1)).
+Proof.
+  intros Hp R Hq. pose proof (ireach_ginv N prog x Hp R) as G.
+  destruct (pending_run N g sch x G (or_introl Hq)) as (l & Hl & Hc).
+  exists l. split; auto. destruct Hc as [Hc|[Hc _]]; auto. right.
+  rewrite <- Hc. apply (bypass_bound N prog); auto. apply ireach_irun; exact R.
 Qed.
